@@ -369,6 +369,10 @@ def py_fullmatch(st, s):
 
 PLAIN = "abcXYZ019_ -.:;,/()[]{}=+*%$#@!?|~^"
 URI_PLAIN = "abcXYZ019_-./~ ()!*,;=+$@?"
+SPECIAL_CHARS = "<>&\"'\n<>&\"'"
+# deterministic well-formedness cases: every XML-special character, alone and combined
+SPECIAL_STRINGS = ['the "big" cell\'s soma', '"', "'", "'\"", '"\'"', "a<b", "a>b", "a&b", "<&>\"'", "x\ny", "&amp;", "&quot;&apos;",
+                   "]]>", "<a b='c' d=\"e\"/>", "1 < 2 && \"x\" != 'y'", "&#10;", "\n\"\n'", "--", "<!-- c -->", " \" ", "'' \"\""]
 
 
 class SchemaGen:
@@ -391,7 +395,12 @@ class SchemaGen:
                         return {"s": s}
                 raise RuntimeError("no sample for " + stname)
             n = rng.choice([0, 1, 2, 5, 9])
-            return {"s": "".join(rng.choice(URI_PLAIN if p == "anyURI" else PLAIN) for _ in range(n))}
+            if p == "anyURI":
+                return {"s": "".join(rng.choice(URI_PLAIN) for _ in range(n))}
+            # unrestricted xs:string: XML-special characters, both quote characters together, newline
+            if rng.random() < 0.35:
+                return {"s": rng.choice(SPECIAL_STRINGS)}
+            return {"s": "".join(rng.choice(PLAIN + SPECIAL_CHARS) for _ in range(n))}
         if p in ("float", "double"):
             if st["enums"]:
                 return {"f": repr(float(rng.choice(st["enums"])))}
